@@ -446,7 +446,7 @@ class TransferableVoteSelector:
             no seats were awarded on this count).
         """
         all_cands = set()
-        for cand, alloc_votes in allocation:
+        for cand, alloc_votes in allocation.items():
             all_cands.update(votelib.util.all_ranked_candidates(alloc_votes))
         new_alloc, newly_elected = self._inner.next_count(
             allocation,
